@@ -632,3 +632,25 @@ Fixpoint dedup (l : list driver) : list driver :=
   | d :: r => if existsb (driver_eqb d) r then dedup r else d :: dedup r
   end.
 Definition claimants (cls : list driver) (uri : str) : list driver := dedup (filter (fun d => claims d uri) cls).
+
+(* ---------------------------------------------------------------- histories of open_link calls on one Crazyflie (Wave 16) *)
+(* open_link has no guard on self.state: every call fires connection_requested, sets state INITIALIZED, and — when
+   no driver claims the URI or the claimed driver raises — fires connection_failed.  close_link sets DISCONNECTED. *)
+Inductive okind := KUnclaimed | KDriverRaises | KGood.
+Inductive cstate := CDisconnected | CInitialized.
+Definition open_cbs (k : okind) : list cfcb :=
+  match k with KGood => [CbRequested] | _ => [CbRequested; CbFailed] end.
+Definition open_step (s : cstate) (k : okind) : cstate * list cfcb := (CInitialized, open_cbs k).
+(* the variant that ignores open_link unless the state is DISCONNECTED and resets it only in the except handler *)
+Definition open_step_guarded (s : cstate) (k : okind) : cstate * list cfcb :=
+  match s with
+  | CDisconnected => (match k with KDriverRaises => CDisconnected | _ => CInitialized end, open_cbs k)
+  | CInitialized => (s, [])
+  end.
+(* a history: each call with its kind and whether close_link() follows it *)
+Fixpoint open_history (step : cstate -> okind -> cstate * list cfcb) (s : cstate) (h : list (okind * bool))
+  : list (list cfcb) :=
+  match h with
+  | [] => []
+  | (k, cl) :: r => let '(s', cbs) := step s k in cbs :: open_history step (if cl then CDisconnected else s') r
+  end.
